@@ -77,6 +77,77 @@ Theorem C18_cqm_is_equal_label_sensitive :
 Proof. exact cqm_is_equal_label_sensitive. Qed.
 Print Assumptions C18_cqm_is_equal_label_sensitive.
 
+(* ---- is_almost_equal: biases compared after rounding to `places` decimals ---- *)
+(* round(a - b, places) == 0 is modelled exactly on rationals: |a - b| * 10^places <= 1/2
+   (round half to even sends the tie to 0) *)
+Theorem C18_is_almost_equal_total : forall p a o, exists b, is_almost_equal_code p a o = Val b.
+Proof. exact is_almost_equal_total. Qed.
+Print Assumptions C18_is_almost_equal_total.
+
+Theorem C18_is_almost_equal_iff_same :
+  forall p a b, wf a -> (is_almost_equal_code p a (OModel b) = Val true <-> almost_same_model p a b).
+Proof. exact is_almost_equal_iff_same. Qed.
+Print Assumptions C18_is_almost_equal_iff_same.
+
+Theorem C18_is_almost_equal_refl : forall p a, wf a -> is_almost_equal_code p a (OModel a) = Val true.
+Proof. exact is_almost_equal_refl. Qed.
+Print Assumptions C18_is_almost_equal_refl.
+
+Theorem C18_is_almost_equal_sym :
+  forall p a b, wf a -> wf b -> is_almost_equal_code p a (OModel b) = is_almost_equal_code p b (OModel a).
+Proof. exact is_almost_equal_sym. Qed.
+Print Assumptions C18_is_almost_equal_sym.
+
+Theorem C18_is_equal_implies_almost :
+  forall p a b, wf a -> is_equal_code a (OModel b) = Val true -> is_almost_equal_code p a (OModel b) = Val true.
+Proof. exact is_equal_implies_almost. Qed.
+Print Assumptions C18_is_equal_implies_almost.
+
+Theorem C18_is_almost_equal_number :
+  forall p a q, is_almost_equal_code p a (ONumber q) = Val true <-> e_vars a = [] /\ almost_eqb p (e_off a) q = true.
+Proof. exact is_almost_equal_number. Qed.
+Print Assumptions C18_is_almost_equal_number.
+
+(* the executable well-formedness test the correspondence applies to every observation *)
+Theorem C18_wf_b_sound : forall m, wf_b m = true -> wf m.
+Proof. exact wf_b_sound. Qed.
+Print Assumptions C18_wf_b_sound.
+
+Theorem C18_cqm_is_almost_equal_total : forall p c o, exists b, cqm_is_almost_equal_code p c o = Val b.
+Proof. exact cqm_is_almost_equal_total. Qed.
+Print Assumptions C18_cqm_is_almost_equal_total.
+
+Theorem C18_cqm_is_almost_equal_iff_same :
+  forall p c d, wf_cqm c -> (cqm_is_almost_equal_code p c (OCqm d) = Val true <-> almost_same_cqm p c d).
+Proof. exact cqm_is_almost_equal_iff_same. Qed.
+Print Assumptions C18_cqm_is_almost_equal_iff_same.
+
+Theorem C18_cqm_is_equal_implies_almost :
+  forall p c d, wf_cqm c -> cqm_is_equal_code c (OCqm d) = Val true -> cqm_is_almost_equal_code p c (OCqm d) = Val true.
+Proof. exact cqm_is_equal_implies_almost. Qed.
+Print Assumptions C18_cqm_is_equal_implies_almost.
+
+(* ---- the documented scope of CQM equality ---- *)
+(* soft weights, penalty kinds, discrete marks and the CQM-level variable list (unused variables)
+   are invisible: erasing them on both sides never changes the answer ... *)
+Theorem C18_cqm_is_equal_scope :
+  forall c o, cqm_is_equal_code c o =
+              cqm_is_equal_code (erase_cqm c) (match o with OCqm d => OCqm (erase_cqm d) | x => x end).
+Proof. exact cqm_is_equal_scope. Qed.
+Print Assumptions C18_cqm_is_equal_scope.
+
+Theorem C18_cqm_is_almost_equal_scope :
+  forall p c o, cqm_is_almost_equal_code p c o =
+                cqm_is_almost_equal_code p (erase_cqm c) (match o with OCqm d => OCqm (erase_cqm d) | x => x end).
+Proof. exact cqm_is_almost_equal_scope. Qed.
+Print Assumptions C18_cqm_is_almost_equal_scope.
+
+(* ... so CQMs that differ only in those compare equal *)
+Theorem C18_cqm_is_equal_ignores :
+  forall c d, NoDup (map fst (q_cons c)) -> erase_cqm c = erase_cqm d -> cqm_is_equal_code c (OCqm d) = Val true.
+Proof. exact cqm_is_equal_ignores. Qed.
+Print Assumptions C18_cqm_is_equal_ignores.
+
 (* non-vacuity *)
 Definition bq : emdl := mkE (EB SPIN) [(0%nat, SPIN, 1); (1%nat, SPIN, qc 1 2)] (qc 3 1) [(0%nat, 1%nat, qc (-1) 4)].
 Definition qq : emdl := mkE EQ [(1%nat, SPIN, qc 1 2); (0%nat, SPIN, 1)] (qc 3 1) [(1%nat, 0%nat, qc (-1) 4)].
@@ -95,3 +166,8 @@ Proof. split; vm_compute; reflexivity. Qed.
 (* same shape, disjoint labels: False, no exception *)
 Example C18_disjoint : is_equal_code qm1 (OModel qm2) = Val false.
 Proof. vm_compute. reflexivity. Qed.
+
+(* rounding: 1/2 at 0 places is a tie and rounds to 0; 3/4 does not; 1/8 at 1 place rounds to 0.1 *)
+Example C18_round_half_even :
+  rz 0 half = true /\ rz 0 (qc 3 4) = false /\ rz 1 (qc 1 8) = false /\ rz 1 (qc 1 20) = true /\ rz 7 (qc 1 4) = false.
+Proof. repeat split; vm_compute; reflexivity. Qed.
